@@ -119,6 +119,15 @@ const("pm_depth_variant", "versatiles_container/src/container/pmtiles/reader.rs"
     (r"fn parse_directories\(", 0),
 ], "coverage scan: 0 = unbounded recursion through leaf directories, 1 = at most 3 directory levels")
 
+# ---- C19 CSV reader; C02 versatiles chunked stream ----
+const("csv_tail_variant", "versatiles_core/src/utils/csv.rs", [
+    (r"Some\(e\) if e == separator => break,\s*Some\(_\) => panic!\(\)", 0),
+    (r"Some\(e\) if e == separator => break,\s*Some\(c\) => \{\s*return Some\(Err\(", 1),
+], "text after a closing quote: 0 = panic!(), 1 = an error item")
+const("vt_stream_variant", "versatiles_container/src/container/versatiles/reader.rs", [
+    (r"let mut tile_ranges: Vec<\(TileCoord3, ByteRange\)> = tile_index.{0,700}?tile_ranges\.sort_by_key\(\|e\| e\.1\.offset\);.{0,200}?Chunk::new\(tile_ranges\[0\]\.1\.offset\).{0,900}?chunk\.push\(entry\).{0,1500}?let start = range\.offset - chunk\.range\.offset;\s*let end = start \+ range\.length;", 1),
+], "bbox stream of a block: 1 = Vec of (coord, range) sorted by offset, greedy chunks, tiles cut out of one chunk read at (offset - chunk offset, length)")
+
 def main():
     out = ["(* GENERATED by tools/scrape_constants.py from /repo — do not edit *)",
            "From Coq Require Import NArith.", "Local Open Scope N_scope.", ""]
